@@ -25,10 +25,45 @@ def sqliteDiv : Val → Val → Val
   | .int a, .int b => if b = 0 then .null else .int (Int.tdiv a b)
   | _, _ => .null
 
-/-- the driver evaluates on rows of integer values the way SQLite does: a CAST to INTEGER /
-    NUMERIC and FLOOR of an integer are the identity, every other function is not interpreted -/
+def lowerAscii (c : Char) : Char := if 'A' ≤ c ∧ c ≤ 'Z' then Char.ofNat (c.toNat + 32) else c
+
+/-- SQLite's LIKE on ASCII text (`%` any sequence, `_` any one character, case-insensitive;
+    the character after the escape character is literal) — fuel bounds the recursion -/
+def likeMatchF (esc : Option Char) : Nat → List Char → List Char → Bool
+  | 0, _, _ => false
+  | _ + 1, [], s => s.isEmpty
+  | f + 1, c :: p, s =>
+    if some c = esc then
+      match p, s with
+      | c2 :: p', x :: s' => lowerAscii x == lowerAscii c2 && likeMatchF esc f p' s'
+      | _, _ => false
+    else if c = '%' then
+      likeMatchF esc f p s || (match s with | _ :: s' => likeMatchF esc f (c :: p) s' | [] => false)
+    else if c = '_' then
+      (match s with | _ :: s' => likeMatchF esc f p s' | [] => false)
+    else
+      match s with
+      | x :: s' => lowerAscii x == lowerAscii c && likeMatchF esc f p s'
+      | [] => false
+
+def sqliteLike (a b : Val) (esc : Option String) : TV :=
+  match a, b with
+  | .str x, .str pat =>
+    some (likeMatchF (esc.bind fun e => e.toList.head?) (2 * (x.length + pat.length) + 2) pat.toList x.toList)
+  | _, _ => none
+
+/-- the driver evaluates on rows of integer / ASCII text values the way SQLite does: a CAST to
+    INTEGER / NUMERIC and FLOOR of an integer are the identity, `lower` and LIKE as SQLite defines
+    them, every other function is not interpreted -/
 instance : Abs :=
-  ⟨fun n vs => if n = "FLOOR" then vs.headD .null else .null, fun _ v => v, sqliteDiv⟩
+  ⟨fun n vs =>
+      if n = "FLOOR" then vs.headD .null
+      else if n = "lower" then
+        (match vs with
+         | [.str x] => .str (String.ofList (x.toList.map lowerAscii))
+         | _ => .null)
+      else .null,
+   fun _ v => v, sqliteDiv, sqliteLike, sqliteLike⟩
 
 def parseTy? : String → Option Ty
   | "int" => some .int | "num" => some .num | "str" => some .str | "bool" => some .bool
